@@ -13,10 +13,15 @@ from .models import StdModels, NONE, OPT, pure, some
 from .segx import Engine, Path, UNIT, norm_path, project
 
 SELF = ("obj", ("param", 1))
-LEXER_FIELDS = ["__state", "__done", "__initial_state", "user_state", "input", "iter_loc",
-                "__iter", "current_match_start", "current_match_end", "last_match"]
+ALL_LEXER_FIELDS = ["__state", "__done", "__initial_state", "user_state", "input", "iter_loc",
+                    "__iter", "current_match_start", "current_match_end", "last_match"]
+# `iter_loc` is written by backtrack and the constructors and read by nothing: the contract holds with
+# or without it
+OPTIONAL_FIELDS = {"iter_loc"}
+LEXER_FIELDS = list(ALL_LEXER_FIELDS)
 LOC_FIELDS = ["line", "col", "byte_idx"]
-LOC_TYPED = ["iter_loc", "current_match_start", "current_match_end"]
+ALL_LOC_TYPED = ["iter_loc", "current_match_start", "current_match_end"]
+LOC_TYPED = list(ALL_LOC_TYPED)
 
 METHODS = ["next", "peek", "backtrack", "reset_accepting_state", "set_accepting_state",
            "reset_match", "match_", "match_loc", "state"]
@@ -149,9 +154,25 @@ def check_rsum(ctx, prog):
     if not ok:
         return {}
     fields = [f["name"] for f in adt["variants"][0]["fields"]]
-    ctx.ob("R-SUM", "Lexer's fields are exactly the ten the specification table covers",
-           sorted(fields) == sorted(LEXER_FIELDS), key="R-SUM:fields",
-           where=adt["span"], detail={"found": fields, "expected": LEXER_FIELDS})
+    LEXER_FIELDS[:] = [f for f in ALL_LEXER_FIELDS if f in fields or f not in OPTIONAL_FIELDS]
+    LOC_TYPED[:] = [f for f in ALL_LOC_TYPED if f in LEXER_FIELDS]
+    if not ctx.ob("R-SUM", "Lexer's fields are exactly the ones the specification table covers (the table is "
+                  "written over this representation of the lexer's state; when the representation changes the "
+                  "table in lexlint/rules_runtime.py has to be revised with it, nothing further is decided)",
+                  sorted(fields) == sorted(LEXER_FIELDS), key="R-SUM:fields",
+                  where=adt["span"], detail={"found": fields, "expected": LEXER_FIELDS}):
+        return {}
+    # ... and hold what the table takes them to hold
+    ftypes0 = {f["name"]: re.sub(r"\s+", " ", str(f["ty"])) for f in adt["variants"][0]["fields"]}
+    shapes = {"__state": r"^usize$", "__done": r"^bool$", "__initial_state": r"^usize$",
+              "input": r"^&('\w+ )?str$", "__iter": r"^std::iter::Peekable<\w+>$",
+              "last_match": r"^std::option::Option<\(.*\)>$"}
+    odd = {f: ftypes0.get(f) for f, pat in shapes.items() if not re.search(pat, ftypes0.get(f) or "")}
+    if not ctx.ob("R-SUM", "Lexer's fields have the types the specification table is written for (state numbers, "
+                  "the input string, a Peekable iterator, the saved match as an optional tuple); with another "
+                  "representation the table has to be revised, nothing further is decided", not odd,
+                  key="R-SUM:field-types", where=adt["span"], detail=odd):
+        return {}
     ftypes = {f["name"]: f["ty"] for f in adt["variants"][0]["fields"]}
     for f in LOC_TYPED:
         ctx.ob("R-SUM", "field %s has type Loc" % f, (ftypes.get(f) or "").rsplit("::", 1)[-1] == "Loc",
@@ -329,7 +350,8 @@ def spec_backtrack(ctx, m, where, sums):
         for i, l in enumerate(LOC_FIELDS):
             exp[("current_match_start", l)] = project(project(t, "0"), l)
             exp[("current_match_end", l)] = project(project(t, "3"), l)
-            exp[("iter_loc", l)] = project(project(t, "3"), l)
+            if "iter_loc" in LEXER_FIELDS:
+                exp[("iter_loc", l)] = project(project(t, "3"), l)
         _expect_changed(ctx, m, where, s, exp, "match saved")
         r = s.ret
         ok = (r is not None and r[0] == "adt" and r[2] == "Ok" and r[4][0][1] == project(t, "2"))
@@ -418,6 +440,8 @@ def _spec_ctor(ctx, m, where, sums, input_v, iter_v, state_v):
            "current_match_start": is_zero, "current_match_end": is_zero,
            "last_match": lambda v: v == NONE}
     for name, pred in exp.items():
+        if name not in LEXER_FIELDS:
+            continue
         ctx.ob("R-SUM", "%s: field %s initialised as specified" % (m, name),
                name in f and pred(f[name]), key="R-SUM:%s:%s" % (m, name), where=where,
                detail=show(f[name]) if name in f else None)
@@ -666,6 +690,39 @@ def strip_fn_sigs(ty):
     return "".join(out)
 
 
+def clone_is_fieldwise(util, nm, adt):
+    """A hand-written `clone` of struct nm returns nm { f: self.f.clone() (or a copy of self.f), .. }."""
+    from .rules_thompson import Sym, show as tshow
+    body = None
+    for b in util.bodies:
+        p = norm_path(b["path"])
+        if p.endswith("as std::clone::Clone>::clone") and re.search(r"<(\w+::)*%s\b" % re.escape(nm), p):
+            body = util.body(p) or b
+    if body is None:
+        return False, "the body of the Clone impl was not found"
+    if len(adt["variants"]) != 1:
+        return False, "hand-written Clone of an enum is not analysed"
+    sym = Sym(body, {1: "self"}, crate=util)
+    ret = sym.local(0)
+    alts = list(ret[1]) if ret[0] == "phi" else [ret]
+    fields = adt["variants"][0]["fields"]
+    for r in alts:
+        if not (r[0] == "agg" and r[1].startswith("adt:") and r[1][4:].rsplit(":", 1)[0].rsplit("::", 1)[-1] == nm
+                and len(r[2]) == len(fields)):
+            return False, {"returned": tshow(r)[:200], "why": "not a %s built field by field" % nm}
+        for i, (f, op) in enumerate(zip(fields, r[2])):
+            want = ("path", ("param", "self"), (("f", i),))
+            o = op
+            while isinstance(o, tuple) and len(o) == 4 and o[0] == "call" and (
+                    o[1].endswith("Clone>::clone") or o[1].endswith("::clone")) and len(o[3]) == 1:
+                o = o[3][0]
+            if o != want:
+                return False, {"field": f["name"], "is": tshow(op)[:160],
+                               "why": "not the clone (or copy) of the same field of `self`: the copy starts from "
+                                      "a different state than the original is in"}
+    return True, None
+
+
 def check_rtypes(ctx, prog):
     util = prog.crate("lexgen_util")
     adt = util.adt("Lexer")
@@ -691,6 +748,41 @@ def check_rtypes(ctx, prog):
         ctx.ob("R-TYPES", "impl Clone for %s exists and is derived (field-wise)" % what,
                len(cl) == 1 and cl[0]["derived"], key="R-TYPES:clone:" + what,
                where=cl[0]["span"] if cl else None)
+    # every other type of lexgen_util that the lexer's state is made of: same two requirements; a Clone
+    # written by hand must still be field-wise (each field of the result is the clone / copy of the same
+    # field of `self`)
+    known = {"Lexer", "Loc", "LexerError", "LexerErrorKind"}
+    reach, work = set(), ["Lexer"]
+    short = {p.rsplit("::", 1)[-1]: p for p in util.adts}
+    while work:
+        nm = work.pop()
+        a = util.adt(nm) or util.adts.get(short.get(nm, ""))
+        if a is None or nm in reach:
+            continue
+        reach.add(nm)
+        for v in a["variants"]:
+            for f in v["fields"]:
+                for w in re.findall(r"[A-Za-z_][A-Za-z0-9_]*", strip_fn_sigs(f["ty"])):
+                    if w in short and w not in reach:
+                        work.append(w)
+    for nm in sorted(reach - known):
+        a = util.adt(nm) or util.adts.get(short.get(nm, ""))
+        for v in a["variants"]:
+            for f in v["fields"]:
+                bad = FORBIDDEN_TYPES.search(strip_fn_sigs(f["ty"]))
+                ctx.ob("R-TYPES", "%s.%s: type %s has no shared-mutable or pointer component" % (
+                    nm, f["name"], f["ty"][:60]), not bad, key="R-TYPES:%s.%s" % (nm, f["name"]),
+                    where=a["span"], detail=bad.group(0) if bad else None)
+        cl = [i for i in impls if i["trait"] == "std::clone::Clone" and _last(i["self_ty"]).rstrip("<") == nm]
+        if not cl:
+            continue        # named in a function-pointer signature only: a field's type must be Clone for
+                            # Lexer's derived Clone to compile
+        ok = len(cl) == 1 and cl[0]["derived"]
+        det = None
+        if len(cl) == 1 and not cl[0]["derived"]:
+            ok, det = clone_is_fieldwise(util, nm, a)
+        ctx.ob("R-TYPES", "impl Clone for %s (part of the lexer's state) is derived, or written by hand field by "
+               "field" % nm, ok, key="R-TYPES:clone:" + nm, where=cl[0]["span"] if cl else a["span"], detail=det)
     cp = [i for i in impls if i["trait"] == "std::marker::Copy" and i["self_ty"].rsplit("::", 1)[-1] == "Loc"]
     ctx.ob("R-TYPES", "Loc is Copy (locations are plain values)", len(cp) == 1, key="R-TYPES:copy:Loc")
     dr = [i for i in impls if i["trait"] == "std::ops::Drop"]
@@ -729,17 +821,22 @@ def check_rctor(ctx, prog, rsum):
             if name in ("input", "__iter", "user_state"):
                 continue
             ctx.ob("R-CTOR", "%s and new_with_state agree on %s" % (m, name),
-                   fs[m][name] == base[name] or (is_zero(fs[m][name]) and is_zero(base[name])),
+                   name in fs[m] and name in base and (
+                       fs[m][name] == base[name] or (is_zero(fs[m][name]) and is_zero(base[name]))),
                    key="R-CTOR:%s:%s" % (m, name))
     ctx.ob("R-CTOR", "with_state constructors store the given user state",
-           fs["new_with_state"]["user_state"] == ("param", 2)
-           and fs["new_from_iter_with_state"]["user_state"] == ("param", 2), key="R-CTOR:state")
+           fs["new_with_state"].get("user_state") == ("param", 2)
+           and fs["new_from_iter_with_state"].get("user_state") == ("param", 2), key="R-CTOR:state")
     ctx.ob("R-CTOR", "new/new_from_iter use Default::default() as user state",
-           fs["new"]["user_state"] == DEFAULT and fs["new_from_iter"]["user_state"] == DEFAULT,
+           fs["new"].get("user_state") == DEFAULT and fs["new_from_iter"].get("user_state") == DEFAULT,
            key="R-CTOR:default")
+    def inner(v):
+        """x for Peekable(x) / peekable(x); the value itself when the iterator is stored as it is"""
+        return v[2] if (isinstance(v, tuple) and len(v) > 2 and isinstance(v[2], tuple) and len(v[2]) == 1) else (v,)
     ctx.ob("R-CTOR", "string constructors iterate over exactly the chars of the input",
-           fs["new"]["__iter"] == fs["new_with_state"]["__iter"]
-           and fs["new"]["__iter"][2] == (pure(CHARS, (("param", 1),)),), key="R-CTOR:chars")
+           fs["new"].get("__iter") == fs["new_with_state"].get("__iter") and "__iter" in fs["new"]
+           and inner(fs["new"]["__iter"]) == (pure(CHARS, (("param", 1),)),), key="R-CTOR:chars")
     ctx.ob("R-CTOR", "iterator constructors use exactly the given iterator",
-           fs["new_from_iter"]["__iter"] == fs["new_from_iter_with_state"]["__iter"]
-           and fs["new_from_iter"]["__iter"][2] == (("param", 1),), key="R-CTOR:iter")
+           fs["new_from_iter"].get("__iter") == fs["new_from_iter_with_state"].get("__iter")
+           and "__iter" in fs["new_from_iter"]
+           and inner(fs["new_from_iter"]["__iter"]) == (("param", 1),), key="R-CTOR:iter")
